@@ -289,7 +289,7 @@ def compose2d(ctx, nx, ny, xkind, ykind, sink):
 
 def scenarios(tier):
     T = []
-    D = {1: [[1], [2], [3]], 2: [[2, 2], [3, 2]], 3: [[2, 2, 2]]}
+    D = {1: [[1], [2], [3]], 2: [[2, 2], [3, 2]], 3: [[2, 2, 2], [1, 2, 3]]}
     if tier == 'thorough':
         D = {1: [[1], [2], [3], [4]], 2: [[2, 2], [3, 2], [2, 3], [1, 3]], 3: [[2, 2, 2], [3, 2, 2], [2, 2, 3]]}
     for g in scen.ALL:
@@ -297,6 +297,8 @@ def scenarios(tier):
         for dims in D[nd]:
             for cf in CONFIGS:
                 if cf == 'periodic' and not any(scen.periodic_ok(g, ax) for ax in range(nd)):
+                    continue
+                if tier == 'quick' and dims == [1, 2, 3] and (cf != 'dirichlet' or g == 'SphericalGrid3D'):
                     continue
                 stars = [None]
                 if g == 'SphericalGrid3D':
